@@ -77,6 +77,9 @@ def run(run, tier, seed, replay=None):
     # C01F: references nested in slices / concatenations (coq Model/C01FElab.v), acyclic and in loops
     from . import c01f
     c01f.run_tie(run, tier, seed)
+    # C01G: the Gallina model of the bundle passes (coq Model/C01GBundlePasses.v) against the implementation
+    from . import c01g
+    c01g.run_tie(run, tier, seed)
 
 
 def corpus():
